@@ -174,16 +174,31 @@ Definition w_defun_inherited := [ODefun 2%N 1; OExport 2%N 0%N; OUse 0%N 1%N; OI
 Definition w_marker := [OExport 0%N 0%N].
 Definition w_makunbound_inherited := [OSetq 0%N 1; OExport 0%N 0%N; OUse 0%N 1%N; OInPkg 1%N; OMakunbound 0%N].
 Definition w_use_transitive := [OInPkg 2%N; OSetq 0%N 1; OExport 0%N 2%N; OUse 2%N 0%N; OUse 0%N 1%N].
+(* found while proving the refinement (the guard evaluated per run had let them through) *)
+Definition w_defun_inherits_export :=
+  [ODefun 3%N 1; OExport 3%N 0%N; OFmakunbound 3%N; OUse 0%N 1%N; OInPkg 1%N; ODefun 3%N 2].
+Definition w_unexport_inherited := [OSetq 0%N 1; OExport 0%N 0%N; OUse 0%N 1%N; OUnexport 0%N 1%N].
 Definition witnesses := [w_unuse; w_private_pushed; w_use_overwrites; w_fmakunbound_stale; w_export_before_defun;
-                         w_defun_inherited; w_marker; w_makunbound_inherited; w_use_transitive].
+                         w_defun_inherited; w_marker; w_makunbound_inherited; w_use_transitive;
+                         w_defun_inherits_export; w_unexport_inherited].
 Lemma outside_guard_refuted :
   forallb differs witnesses = true /\ forallb (fun w => negb (guard_run PK NM (sinit 0%N) w)) witnesses = true.
 Proof. split; vm_compute; reflexivity. Qed.
+
+(* the name discipline is necessary: a guarded history that uses one name both as a function and as a
+   variable, on which M differs from S (export of a function name interns an exported unbound variable
+   whose p:name is the unbound marker) *)
+Definition w_unsorted := [ODefun 0%N 1; OExport 0%N 0%N].
+Lemma unsorted_refuted :
+  guard_run PK NM (sinit 0%N) w_unsorted = true /\ differs w_unsorted = true /\
+  forallb (sorted_op VN FN) w_unsorted = false.
+Proof. repeat split; vm_compute; reflexivity. Qed.
 
 (* non-vacuity: a guarded history using every guarded operation, on which M = S *)
 Definition ex_guarded : list op :=
   [OSetq 0%N 1; ODefun 2%N 2; OExport 0%N 0%N; OExport 2%N 0%N; OUse 0%N 1%N; OInPkg 1%N; OSetq 0%N 3; OSetq 1%N 4;
    ODefun 3%N 5; ODefvar 1%N 6; OInPkg 0%N; OUnexport 0%N 0%N; OMakunbound 0%N; OInPkg 1%N; OMakunbound 1%N; OFmakunbound 3%N].
 Lemma guarded_example :
-  guard_run PK NM (sinit 0%N) ex_guarded = true /\ differs ex_guarded = false /\ List.length ex_guarded = 16%nat.
+  guard_run PK NM (sinit 0%N) ex_guarded = true /\ forallb (sorted_op VN FN) ex_guarded = true /\
+  differs ex_guarded = false /\ List.length ex_guarded = 16%nat.
 Proof. repeat split; vm_compute; reflexivity. Qed.
